@@ -64,6 +64,15 @@ pub struct FirstBytesCase {
 }
 
 #[derive(Clone, Debug, Serialize, Deserialize)]
+pub struct ForgeCase {
+    pub hash: HashId,
+    pub levels: Vec<(u32, u32)>,
+    pub qsel: u8,
+    pub tag: u64,
+    pub msg_len: usize,
+}
+
+#[derive(Clone, Debug, Serialize, Deserialize)]
 pub struct SpecialCase {
     pub hash: HashId,
     pub kind: String,
@@ -238,6 +247,43 @@ pub fn run(ctx: &Ctx) {
         match total(b.hash, &b.msg, &sig, &pk) {
             Ok(_) => pass(format!("{}|{}", b.hash.name(), if c.target_pk { "pk" } else { "sig" }), true),
             Err((k, m)) => fail(k, format!("{} [{} byte {} := {:#x}]", m, if c.target_pk { "pk" } else { "sig" }, c.pos, c.value)),
+        }
+    });
+
+    // well-formed forgeries: every (hash, W, height up to 25) combination with exact lengths and
+    // random contents reaches the LM-OTS and Merkle stages of the verifier
+    let mut fg: Vec<ForgeCase> = Vec::new();
+    for h in ALL_HASHES {
+        for w in [1u32, 2, 4, 8] {
+            for ht in [2u32, 5, 10, 15, 20, 25] {
+                for qsel in 0..5u8 {
+                    fg.push(ForgeCase { hash: h, levels: vec![(w, ht)], qsel, tag: (w * 100 + ht) as u64, msg_len: 30 });
+                }
+                fg.push(ForgeCase { hash: h, levels: vec![(8, 25), (w, ht)], qsel: 2, tag: 7, msg_len: 0 });
+                fg.push(ForgeCase { hash: h, levels: vec![(w, ht), (4, 20), (w, 25)], qsel: 4, tag: 9, msg_len: 64 });
+            }
+        }
+        // every message length around the block boundaries of the message hash
+        for ml in 0..=200usize {
+            fg.push(ForgeCase { hash: h, levels: vec![(8, 5)], qsel: 1, tag: 11, msg_len: ml });
+        }
+    }
+    ctx.enumerate("wellformed_forgeries", fg.len() as u64, true, |i| fg[i as usize].clone(), |c: &ForgeCase| {
+        let t = wire::forge(c.hash, &c.levels, c.qsel, c.tag, c.msg_len);
+        match total(c.hash, &t.msg, &t.sig, &t.pk) {
+            Ok(true) => fail("forgery-accepted", "a random well-formed forgery verifies"),
+            Ok(false) => pass(format!("{}|L{}|h{}", c.hash.name(), c.levels.len(), c.levels[0].1), true),
+            Err((k, m)) => fail(k, format!("{} [well-formed forgery {} qsel {} msg {} B]", m, levels_str(&c.levels), c.qsel, c.msg_len)),
+        }
+    });
+    // genuine signatures against messages of every length 0..=300
+    let ml_bases = bases_for(pool, &ALL_HASHES, &[vec![(8u32, 2u32)]]);
+    ctx.enumerate("message_lengths", ml_bases.len() as u64 * 301, true, |i| (ml_bases[(i / 301) as usize] as u16, (i % 301) as u16), |c: &(u16, u16)| {
+        let b = &pool[c.0 as usize];
+        let msg = gen::expand(5, c.1 as usize);
+        match total(b.hash, &msg, &b.sig, &b.pk) {
+            Ok(_) => pass(format!("{}", b.hash.name()), true),
+            Err((k, m)) => fail(k, format!("{} [message of {} bytes]", m, c.1)),
         }
     });
 
